@@ -357,6 +357,18 @@ def _hashmap(vm, m, c, args):
 
 def _vec(vm, m, c, args):
     A = vm.alg
+    mm = re.match(r'^(?:std::collections::)?HashSet::<.*?>::(\w+)(::<.*>)?$', c)
+    if mm:      # HashSet of strings: Struct((Seq(items),), 'HashSet')
+        n = mm.group(1)
+        if n in ('new', 'with_capacity'): return ret(m, Struct((Seq(()),), 'HashSet'))
+        r = args[0]; hs = deref_val(vm, m, r); key = lambda x: deref_val(vm, m, x).s
+        if n == 'insert':
+            if any(key(x) == key(args[1]) for x in hs.f[0].items): return ret(m, False)
+            while isinstance(vm.read_at(m, r.cell, r.path), Ref): r = vm.read_at(m, r.cell, r.path)
+            vm.write_at(m, r.cell, list(r.path), Struct((Seq(hs.f[0].items + (args[1],)),), 'HashSet')); return ret(m, True)
+        if n == 'contains': return ret(m, any(key(x) == key(args[1]) for x in hs.f[0].items))
+        if n == 'len': return ret(m, len(hs.f[0].items))
+        raise Unmodelled('HashSet method ' + c)
     mm = re.match(r'^VecDeque::<.*?>::(\w+)(::<.*>)?$', c)
     if mm:      # std::collections::VecDeque as a sequence (front = index 0)
         n = mm.group(1)
